@@ -32,6 +32,9 @@ TRUSTED = [
     "bitwise operators on negative ints: the model's own two's-complement definitions (bitAnd/bitOr/bitXor over Nat operations), tied to CPython and g++ by S_py / S_c",
     "abs/min/max: the model evaluates the chosen operand once, the Arduino macros twice (expressions of the fragment are pure)",
     "C int modelled as an unbounded integer with a 32-bit range check (`overflow`): 16-bit AVR int is a side condition the model does not check",
+    "W14 list comprehension over range(a, b, s): `Fw/ListRange.lean` mirrors the helper template's counting walk and bound-checked fill walk (theorems for all a, b and s ≠ 0: "
+    "the block holds exactly Python's range, no store outside it); C int unbounded there too (`exit_value_up/down`: no value beyond stop + step is computed), the lambda body a pure "
+    "Int → Int (tied with affine bodies m*t + c, element type int); step 0: helper returns the empty list where CPython raises ValueError (counted, no oracle verdict)",
     "harness/langgen.py printers (Python text and S-expression of one tree), harness/pyoracle.py (CPython + host modules), mock core + host g++",
 ]
 
